@@ -117,7 +117,11 @@ def named_records(quick, rng):
         sig.r = rng.choice([b'', b'\0', b'\0\0']) + art.i2b(r)
         sig.s = rng.choice([b'', b'\0']) + art.i2b(s)
         sig.message_hash = hb
-        rec = R('named-%s-%d-%d' % (c.name, hl, rep), 'nhnp', {'curve': c.name, 'hlen': hl})
+        # the declared algorithm of the signature: the one that matches the digest length where there is one, any other value otherwise
+        # (the digest itself, "full hash of the message", defines the length that RFC 6979 2.4 truncates)
+        alg = {20: 7, 28: 8, 32: 9, 48: 10, 64: 11}.get(hl, 0) if rep % 3 != 2 else rng.randrange(0, 19)
+        sig.algorithm = alg
+        rec = R('named-%s-%d-%d' % (c.name, hl, rep), 'nhnp', {'curve': c.name, 'hlen': hl, 'algorithm': alg})
         try:
           rr, ss, zz = ec_util.ECDSAValues(sig, c)
           a, b = c.HiddenNumberParams(rr, ss, zz)
